@@ -113,6 +113,31 @@ CLAIMED = {
    note='Partial: survival of the leading keyword through grouping and the CTE clause are sampled. Known finding KF-C18-1 (keyword directly before ( or .).',
    technique='Lean 4 theorems over the accessor model + oracle + differential correspondence',
    design='§7 C18'),
+ 'C06': dict(
+   text='Theorems over the filter model: strip_whitespace and use_space_around_operators leave the sequence of non-whitespace leaves (type and value) unchanged on every tree; serializer only strips line ends; the full format model never leaks RecursionError/StopIteration and validates first. '
+        'ReindentFilter/AlignedIndentFilter are modelled literally and tied by S-FMT/S-TREES (0 mismatches on ~75k cases each) but their preservation is not proved: for them and for the lexical bridge the oracle decides '
+        '(significant-token sequence incl. comments and statement count of format(script, **layout options) vs the script).',
+   note='Partial: reindent/aligned clauses and the re-lexing bridge are exploration + correspondence, not theorems.',
+   technique='Lean 4 theorems (bottom-up invariant over tree filters) for two of the four layout filters + differential correspondence of the full format pipeline + oracle',
+   design='§7 C06'),
+ 'C08': dict(
+   text='Theorems: keyword_case / identifier_case / truncate_strings are maps that change exactly their target tokens (others identical, in order), idempotent given idempotent case conversion; strip_comments keeps every non-comment non-whitespace leaf in order on trees whose Comment groups are pure. '
+        'Oracle: each filter alone and with layout options on grammar scripts with comments in every gap, token-by-token comparison after re-lexing, and the filter applied to its own output; S-FMT.',
+   note='Partial: no-fusing and end-to-end idempotence are oracle-checked. Four known findings KF-C08-1..4.',
+   technique='Lean 4 theorems over the token-filter and strip-comments models + oracle by re-lexing + differential correspondence',
+   design='§7 C08'),
+ 'C10': dict(
+   text='Theorem: no output line ends in a blank (serializer, every text). The other normal-form and fixed-point clauses are checked by the oracle on the real code (strip_whitespace shape, blanks around every operator, clause keywords at line start, fixed points), filters tied by S-FMT.',
+   note='Mostly exploration: one clause is a theorem. Four known findings KF-C10-1..4 (newline after operator, inner whitespace of multi-word keywords, whitespace run before comma, quote inside a comment).',
+   technique='oracle on the real code + differential correspondence; Lean theorem for the trailing-blank clause only',
+   design='§7 C10'),
+ 'C14': dict(
+   text='Theorems (all subject strings, positions, left contexts, bodies): block comments and hints, line comments (-- and # ) and hints, single-quoted strings with doubled quotes, double-quoted and backtick/acute names, dollar-quoted bodies with tags '
+        'are each exactly one token of their type at the opener — tied to the regenerated rule table by definitional equations (a changed regex breaks them) and decide obligations that no earlier rule can start there. '
+        'Keyword clause: exhaustive enumeration of every dictionary word x 4 casings x 7 delimited contexts on the real lexer, S-LEX against the model; random non-dictionary words are Names.',
+   note='Keyword clause is exhaustive execution, not proof. Theorems are about one scan step at the opener. Known finding KF-C14-1 (three non-word dictionary entries).',
+   technique='Lean 4 theorems from rule shapes (first-character analysis + closed forms of lazy/greedy stars) + exhaustive table enumeration + differential correspondence',
+   design='§7 C14'),
 }
 TITLES = {}
 for line in open(os.path.join(VERIF, 'properties.jsonl')):
